@@ -94,7 +94,9 @@ StepMut2 == /\ st.kind = "val" /\ st.k < KMut2 /\ TY(st.tn).tl2
 
 (* function results: the result type is instantiated with the nat fields of the request *)
 ResEnv(tn, q) == ArgsVal(TY(tn).resNa, NoEnv, TY(tn), q)
-StepFn == /\ st.kind = "val" /\ TY(st.tn).fn /\ KFn > 0 /\ st.k <= KFn
+\* functions declared in TL2 have no TL1 request or result: their argument structs are covered as
+\* values (C03, C05); the result transcoders modelled here are those of TL1-declared functions
+StepFn == /\ st.kind = "val" /\ TY(st.tn).fn /\ ~TY(st.tn).origin2 /\ KFn > 0 /\ st.k <= KFn
           /\ st' = [kind |-> "fn", tn |-> st.tn, q |-> st.v, r |-> Default(TY(st.tn).res, ResEnv(st.tn, st.v)), k |-> 0]
 StepFnMod == /\ st.kind = "fn" /\ st.k < KFn
              /\ \E w \in Mods(TY(st.tn).res, ResEnv(st.tn, st.q), st.r) : st' = [st EXCEPT !.r = w, !.k = @ + 1]
